@@ -6,5 +6,6 @@ pub mod sys;
 pub mod explore;
 pub mod fault;
 pub mod journal;
+pub mod limit;
 pub mod look;
 pub mod probe;
